@@ -372,6 +372,52 @@ let () =
     List.iter (fun (nm, v) -> Printf.printf "F %s %x %s\n" nm (int_of_n v) (class_name (hardcoded_class v)))
       ["ALM", fc_ALM; "LRM", fc_LRM; "RLM", fc_RLM; "LRI", fc_LRI; "RLI", fc_RLI; "FSI", fc_FSI; "PDI", fc_PDI;
        "LRE", fc_LRE; "RLE", fc_RLE; "PDF", fc_PDF; "LRO", fc_LRO; "RLO", fc_RLO]
+  | _ :: "enum" :: spec :: shard :: nshards :: _ ->
+    (* bounded-exhaustive tie: the same enumeration as `bidi-harness enum`; the implementation's lines arrive on stdin *)
+    let shard = int_of_string shard and nshards = int_of_string nshards in
+    let ic = open_in spec in
+    let counter = ref 0 and compared = ref 0 and bad = ref 0 in
+    let hex n = Printf.sprintf "%x." n in
+    (try
+       while true do
+         let line = input_line ic in
+         match List.filter (fun x -> x <> "") (split ' ' line) with
+         | ["E"; maxlen; dirs; alpha] ->
+           let maxlen = int_of_string maxlen in
+           let alpha = Array.of_list (List.map (fun h -> int_of_string ("0x" ^ h)) (split ',' alpha)) in
+           let n = Array.length alpha in
+           for len = 1 to maxlen do
+             let total = int_of_float (float_of_int n ** float_of_int len) in
+             for code = 0 to total - 1 do
+               incr counter;
+               if !counter mod nshards = shard then begin
+                 let c = ref code in
+                 let cps = List.init len (fun _ -> let x = alpha.(!c mod n) in c := !c / n; x) in
+                 let text = List.map n_of_int cps in
+                 for di = 0 to String.length dirs - 1 do
+                   let d = dirs.[di] in
+                   let dir = (match d with 'a' -> None | '0' -> Some O | _ -> Some (S O)) in
+                   let mine = (match bidi_info_new U8 hardcoded_ds text dir with
+                     | Ok b -> String.concat "" (List.map (fun p -> hex (int_of_nat p.p_level)) b.bi_paras) ^ "|" ^
+                               String.concat "" (List.map (fun l -> hex (int_of_nat l)) b.bi_levels)
+                     | Panic _ -> "PANIC") in
+                   let theirs = (try input_line stdin with End_of_file -> "MISSING") in
+                   incr compared;
+                   if mine <> theirs then begin
+                     incr bad;
+                     if !bad <= 40 then
+                       Printf.printf "ENUM-MISMATCH\t%s\t%s\timpl=%s\tmodel=%s\n"
+                         (String.concat "," (List.map (Printf.sprintf "%x") cps))
+                         (String.make 1 d) theirs mine
+                   end
+                 done
+               end
+             done
+           done
+         | _ -> ()
+       done
+     with End_of_file -> ());
+    Printf.printf "ENUM-DONE\tcompared=%d\tmismatches=%d\n" !compared !bad
   | _ :: "levels" :: _ ->
     let ol = function Some l -> string_of_int (int_of_nat l) | None -> "E" in
     let line name f = Printf.printf "%s\t%s\n" name (String.concat "," (List.init 256 f)) in
